@@ -33,6 +33,8 @@ class Unspecified(Exception):
 class Scope:
     __slots__ = ("parent", "kind", "name", "defs", "xdefs", "code", "table", "internal", "id", "declared")
     _n = 0
+    tracer = None   # optional callable(name, scope that holds the definition): set by a tracing Assembler
+    origins = None  # optional dict (id(scope), key) -> (id(defining scope), name): follows named-scope exports
 
     def __init__(self, parent, kind, name=None):
         self.parent, self.kind, self.name = parent, kind, name
@@ -53,11 +55,15 @@ class Scope:
             self.parent.defs[f"{self.name}.{name}"] = value
             if x:
                 self.parent.xdefs[f"{self.name}.{name}"] = value
+            if Scope.origins is not None:
+                Scope.origins[(id(self.parent), f"{self.name}.{name}")] = Scope.origins.get((id(self), name), (id(self), name))
 
     def lookup(self, name):
         s = self
         while s is not None:
             if name in s.defs:
+                if Scope.tracer is not None:
+                    Scope.tracer(name, s)
                 return s.defs[name]
             s = s.parent
         raise KeyError(name)
@@ -66,6 +72,8 @@ class Scope:
         s = self
         while s is not None:
             if name in s.xdefs:
+                if Scope.tracer is not None:
+                    Scope.tracer(name, s)
                 return s.xdefs[name]
             if name in s.declared:
                 # the innermost enclosing scope that defines the name is this one, and its value is
@@ -113,7 +121,11 @@ MAX_ITEMS = 20000
 
 
 class Assembler:
-    def __init__(self, rom="low", files=None, usermap=None, defines=None, tables=None):
+    def __init__(self, rom="low", files=None, usermap=None, defines=None, tables=None, trace=False):
+        self.trace = trace
+        self.trace_refs: list = []   # (id(statement), name as written, origin)
+        self.trace_defs: dict = {}   # id(label statement) -> origin
+        self._cur_st = None
         self.files = files or {}
         self.bus = busmodel.usermap(usermap) if usermap else busmodel.builtin(rom)
         self.items = []
@@ -159,6 +171,7 @@ class Assembler:
         for st in stmts:
             if len(self.items) > MAX_ITEMS:
                 raise Unspecified("expansion size")
+            self._cur_st = st
             k = st["k"]
             if k in ("org", "reloc", "label", "ins", "data", "ascii", "text", "incbin", "ips"):
                 self.items.append((k, scope, st))
@@ -196,7 +209,7 @@ class Assembler:
                         callee.define(p, self.xeval(a, scope), x=True)  # evaluated at the CALL SITE
                     except KeyError:
                         callee.declared.add(p)
-                        self.items.append(("argdef", callee, {"n": p, "e": a, "site": scope}))
+                        self.items.append(("argdef", callee, {"n": p, "e": a, "site": scope, "src": st}))
                 self.expand(m["b"], callee, depth + 1)
             elif k == "splice":
                 try:
@@ -267,8 +280,20 @@ class Assembler:
         return 0
 
     # ---- phases 2-4 ------------------------------------------------------------------------------------
+    def _trace(self, name, scope):
+        origin = Scope.origins.get((id(scope), name), (id(scope), name))
+        self.trace_refs.append((id(self._cur_st), name, origin))
+
     def run(self, ir) -> Result:
         res = Result()
+        if self.trace:
+            Scope.tracer, Scope.origins = self._trace, {}
+        try:
+            return self._run_guarded(ir, res)
+        finally:
+            Scope.tracer, Scope.origins = None, None
+
+    def _run_guarded(self, ir, res) -> Result:
         try:
             self._run(ir, res)
         except Reject as e:
@@ -288,6 +313,7 @@ class Assembler:
         relocated = False
         for item in self.items:
             k, scope, st = item
+            self._cur_st = st.get("src", st) if isinstance(st, dict) else st
             if k == "org":
                 a = self._addr(st, scope)
                 kind = bus.kind(a)
@@ -323,6 +349,8 @@ class Assembler:
                 if st["n"] in scope.defs:
                     raise Unspecified("duplicate definition in one scope")
                 scope.define(st["n"], run)
+                if self.trace:
+                    self.trace_defs[id(st)] = (id(scope), st["n"])
                 if not self._in_loop(scope):
                     res.labels.append((st["n"], run))
                 if not self._under_loop(scope):
@@ -347,6 +375,7 @@ class Assembler:
                 off += n
         # -- symbols (in order)
         for (k, scope, st), _, _ in placed:
+            self._cur_st = st.get("src", st)
             if k == "const":
                 try:
                     scope.define(st["n"], X.evaluate(st["e"], scope.lookup))
@@ -360,6 +389,7 @@ class Assembler:
         # -- emission
         cur_block = None
         for (k, scope, st), run, off in placed:
+            self._cur_st = st.get("src", st)
             if k == "org":
                 cur_block = [off, bytearray()]
                 res.blocks.append(cur_block)
